@@ -61,7 +61,8 @@ def get_new_fields(resource, fields):
         if isinstance(target, str):
             target = dict(
                 name=target,
-                type=get_type(resource['schema']['fields'],
+                # (a source may be a field added by an earlier specification of the same call)
+                type=get_type(resource['schema']['fields'] + new_fields,
                               f.get('source', []),
                               f['operation'])
             )
